@@ -253,14 +253,19 @@ fn check_transform(sys: &Sys, tier: Tier) -> CaseOut {
     } else {
         mats = vec![vec![vec![0.0, 1.0, 0.0], vec![0.0, 0.0, 1.0], vec![1.0, 0.0, 0.0]], vec![vec![1.0, 1.0, 0.0], vec![0.0, 1.0, 1.0], vec![0.0, 0.0, 1.0]], vec![vec![2.0, 0.0, 0.0], vec![0.0, -1.0, 0.0], vec![1.0, 0.0, 1.0]]];
     }
-    let biases = lattice(n, &[0.0, 1.0, -0.5]);
+    let mut biases = lattice(n, &[0.0, 1.0, -0.5]);
+    if n >= 2 {
+        // non-zero offsets whose entries cancel
+        biases.push((0..n).map(|j| if j == 0 { 1.5 } else if j == 1 { -1.5 } else { 0.0 }).collect());
+        biases.push((0..n).map(|j| if j == 0 { -2.0 } else { 2.0 / (n as f64 - 1.0) }).collect());
+    }
     for (mi, m) in mats.iter().enumerate() {
         let mq = qm(m);
         let inv = match inverse(&mq) { Some(i) => i, None => continue };
         // inverse must be exactly representable
         let invf: Option<Vec<Vec<f64>>> = inv.iter().map(|r| r.iter().map(|x| x.to_f64_exact()).collect::<Option<Vec<f64>>>()).collect();
         let invf = match invf { Some(i) => i, None => continue };
-        let c = &biases[mi % biases.len()];
+        for c in [&biases[mi % biases.len()], &biases[biases.len() - 1 - (mi % 2)]] {
         let cq: Vec<Q> = c.iter().map(|t| Q::from_f64(*t)).collect();
         out.add("evaluations", 1);
         match catch(|| p.apply_post(&arr2(&invf), &Array1::from(c.clone()))) {
@@ -272,6 +277,7 @@ fn check_transform(sys: &Sys, tier: Tier) -> CaseOut {
                     v(&mut out, "apply_post", "set", "apply_post does not contain exactly the images of P's points".into(), rec("apply_post", json!({"map": m, "inverse_passed": invf, "bias": c})));
                 }
             }
+        }
         }
         // orthogonal ones (signed permutations): rotate
         let orth = (0..n).all(|i| (0..n).all(|j| { let mut s = Q::ZERO; for k in 0..n { s = s + &mq[k][i] * &mq[k][j]; } s == if i == j { Q::ONE } else { Q::ZERO } }));
